@@ -415,15 +415,40 @@ def main(argv=None):
             results.append(_run_cell(prop, c, timeout_s, args.tier))
     else:
         ctx = mp.get_context("spawn")
-        with ProcessPoolExecutor(max_workers=jobs, mp_context=ctx) as ex:
-            futs = {ex.submit(_run_cell, prop, c, timeout_s, args.tier): c for c in cells}
-            for fu in as_completed(futs):
-                try:
-                    results.append(fu.result())
-                except Exception as e:  # noqa: BLE001
-                    results.append({"cfg": futs[fu], "records": [], "samples": [], "nontrivial": [], "validated": 0,
-                                    "notes": [], "interp": {}, "solver": {}, "wall_s": 0.0, "replay_outcome": None,
-                                    "error": {"kind": "worker", "msg": repr(e), "tb": traceback.format_exc()}})
+        # wall-clock budget for the whole check (a changed tree can make MANY cells slow): what is not finished by then is
+        # inconclusive.  quick: 40 min, thorough: 5 h (VERIF_CHECK_TIMEOUT seconds to override)
+        deadline = t0 + float(os.environ.get("VERIF_CHECK_TIMEOUT", "2400" if args.tier == "quick" else "18000"))
+        ex = ProcessPoolExecutor(max_workers=jobs, mp_context=ctx)
+        futs = {ex.submit(_run_cell, prop, c, timeout_s, args.tier): c for c in cells}
+        pending = set(futs)
+        try:
+            from concurrent.futures import wait, FIRST_COMPLETED
+            while pending:
+                remaining = deadline - time.time()
+                if remaining <= 0:
+                    break
+                done, pending = wait(pending, timeout=min(remaining, 30.0), return_when=FIRST_COMPLETED)
+                for fu in done:
+                    try:
+                        results.append(fu.result())
+                    except Exception as e:  # noqa: BLE001
+                        results.append({"cfg": futs[fu], "records": [], "samples": [], "nontrivial": [], "validated": 0,
+                                        "notes": [], "interp": {}, "solver": {}, "wall_s": 0.0, "replay_outcome": None,
+                                        "error": {"kind": "worker", "msg": repr(e), "tb": traceback.format_exc()}})
+        finally:
+            for fu in pending:
+                fu.cancel()
+                results.append({"cfg": futs[fu], "records": [], "samples": [], "nontrivial": [], "validated": 0, "notes": [],
+                                "interp": {}, "solver": {}, "wall_s": 0.0, "replay_outcome": None,
+                                "error": {"kind": "timeout", "msg": "not finished within the wall-clock budget of the whole check", "tb": ""}})
+            procs = list(getattr(ex, "_processes", {}).values())
+            ex.shutdown(wait=not pending, cancel_futures=True)
+            if pending:
+                for pr in procs:
+                    try:
+                        pr.terminate()
+                    except Exception:  # noqa: BLE001
+                        pass
     return finish(prop, mod, args, seed, cells, results, t0)
 
 
